@@ -49,6 +49,7 @@ def check(ck):
     from . import helpers as H
     ck.rule('R08.12', 'deep_merge (used by the merge updater) keeps its recursion skeleton')
     H.deep_merge_shape(ck, 'R08.12')
+    H.multi_update_collision_shape(ck, 'R08.12')
     H.target_not_rebound_by_truthiness(ck, 'R08.12', [
         ('deep_merge_multi_update', 'library.dict_utils'),
         ('deep_merge', 'library.dict_utils'),
